@@ -27,11 +27,23 @@ def fmtJ : Writer.Format → Json
   | .xml => "xml"
   | .pb => "pb"
 
-def inputOf (j : Json) : P SInput := do
-  pure { id := ← getNat j "id", name := ← getStr j "name" }
+def errOf (s : String) : P CR.Err :=
+  match s with
+  | "assert" => pure .assert | "value" => pure .value | "key" => pure .key | "attr" => pure .attr
+  | "type" => pure .type | "zero-div" => pure .zeroDiv | "index" => pure .index | "other" => pure .other
+  | x => throw s!"error class: {x}"
 
-/-- ["new", fmt, input index, precision] | ["write", writer index, kind, file|null, mode, answerN] -/
-def opOf (inputs : List SInput) (j : Json) : P (Op SInput) := do
+def optErr (j : Json) (k : String) : P (Option CR.Err) :=
+  match fieldOpt j k with
+  | none => pure none
+  | some v => do pure (some (← errOf (← asStr v)))
+
+/-- {"id", "name", "xmlErr"?: class, "pbErr"?: class} — the error classes: the planning problems cannot be written -/
+def inputOf (j : Json) : P SInput := do
+  pure { id := ← getNat j "id", name := ← getStr j "name", xmlErr := ← optErr j "xmlErr", pbErr := ← optErr j "pbErr" }
+
+/-- ["new", fmt, input index, precision] | ["write", writer index, kind, file|null, mode, answerN, date] -/
+def opOf (inputs : List SInput) (j : Json) : P (Op SInput String) := do
   match ← asArr j with
   | [t, a, b, c] =>
     if (← asStr t) != "new" then throw "op: expected new" else
@@ -39,24 +51,30 @@ def opOf (inputs : List SInput) (j : Json) : P (Op SInput) := do
     match inputs[k]? with
     | none => throw s!"op: no input {k}"
     | some inp => pure (.new (← fmtOf a) inp (← asNat c))
-  | [t, w, k, f, m, ans] =>
+  | [t, w, k, f, m, ans, d] =>
     if (← asStr t) != "write" then throw "op: expected write" else
     let file ← (match f with
       | .null => pure none
       | v => do pure (some (← asStr v)) : P (Option String))
-    pure (.write (← asNat w) (← kindOf k) file (← modeOf m) (← asBool ans))
+    pure (.write (← asNat w) (← kindOf k) file (← modeOf m) (← asBool ans) (← asStr d))
   | _ => throw "op: bad arity"
 
 def nodeJ (n : SNode) : Json := Json.arr #[Json.bool n.pp, natJ n.inp, natJ n.prec]
 
 def bytesJ : SBytes → Json
-  | .file f i ns => Json.mkObj [("fmt", fmtJ f), ("inp", natJ i), ("nodes", Json.arr (ns.map nodeJ).toArray)]
+  | .file f i d ns => Json.mkObj [("fmt", fmtJ f), ("inp", natJ i), ("date", optJ Json.str d),
+                                  ("nodes", Json.arr (ns.map nodeJ).toArray)]
   | .foreign k => Json.mkObj [("foreign", natJ k)]
 
+def contentJ (x : SContent) : Json := Json.arr #[fmtJ x.fmt, natJ x.inp, Json.bool x.pp, natJ x.prec]
+
+/-- a produced file is reported with what the model's reader makes of it (`null`: the reader raises) and with its
+    content "date stamp aside" -/
 def outcomeJ : Outcome SBytes → Json
   | .created i => Json.mkObj [("created", natJ i)]
   | .skipped => "skipped"
-  | .wrote p b => Json.mkObj [("wrote", Json.arr #[Json.str p, bytesJ b])]
+  | .wrote p b => Json.mkObj [("wrote", Json.arr #[Json.str p, bytesJ b]), ("read", optJ contentJ (symCodec.read b)),
+                              ("erased", bytesJ (symCodec.eraseDate b))]
   | .failed e => errJ e
 
 def preOf (j : Json) : P (String × Nat) := do
@@ -79,12 +97,13 @@ def handle (op : String) (a : Json) : P Json := do
     let ops ← getList (opOf inputs) a "ops"
     let paths ← getList asStr a "paths"
     let fs0 : String → Option SBytes := fun q => (pre.find? (·.1 == q)).map (fun e => .foreign e.2)
-    let st0 : Proc SInput SNode SBytes := { gprec := ← getNat a "gprec", fs := fs0, ws := [] }
+    let st0 : St SInput SNode SBytes String := { gprec := ← getNat a "gprec", fs := fs0, ws := [] }
     let r := run sem symCodec st0 ops
     pure <| Json.mkObj [
       ("outcomes", Json.arr (r.2.map outcomeJ).toArray),
       ("fs", Json.arr (paths.map fun p => optJ bytesJ (r.1.fs p)).toArray),
       ("gprec", natJ r.1.gprec),
+      ("gprecs", Json.arr ((runGprecs sem symCodec st0 ops).map natJ).toArray),
       ("roots", Json.arr (r.1.ws.map fun w => natJ w.root.length).toArray)]
   | _ => throw s!"C15: unknown op {op}"
 
